@@ -16,6 +16,10 @@ C. probe weighting: M = 1..5 x requested weights {default, equal, skewed} x mean
 D. histories (model-checking style): every ordered pair (thorough: triple) of "configure one instance with one non-default constraint key"
    events, followed by reading FRESH models of every class with no constraint written; a model must not depend on other models
    (differential oracle against the empty history, admissibility under the start-up defaults, class-level defaults unchanged).
+E. pipeline: histories of steps on a real multislice, mixed-state Ptychography instance - every way of handing constraints to the pipeline
+   (constraints property, model setters, reconstruct(reset False/True, num_iters 0/1, constraints given or not)); the constraints in force
+   and the object / patches / probe handed to the forward model are judged against a dict reference model.
+The object lattice (A) also has a mask-SHAPE dimension: 2-D masks and, for multislice objects, 3-D masks with equal / differing planes.
 """
 from __future__ import annotations
 
@@ -37,7 +41,9 @@ CLAIM = (
     "correlation up to 0.99; set_initial_probe scales the probe so that sum |FFT_ortho|^2 equals the mean intensity with the requested "
     "mode shares; and for every ordered pair (thorough: triple) of events that give ONE instance one non-default constraint key, fresh object, probe "
     "and tomography models with no constraint written behave bit for bit as if no other instance had ever been configured, are admissible under the "
-    "default constraints, and the class-level default mappings are unchanged. Exhaustive lattice exploration is the right level: the property quantifies over constraint dictionaries, masks, types "
+    "default constraints, and the class-level default mappings are unchanged; and for every single step, ordered pair (thorough: triple) of ways of handing constraints to a "
+    "real multislice Ptychography object (constraints property, model setters, reconstruct with reset False/True, 0/1 iterations, constraints given or not) the constraints in force "
+    "equal the requested ones and the object, patches and probe handed to the forward model satisfy them. Exhaustive lattice exploration is the right level: the property quantifies over constraint dictionaries, masks, types "
     "and magnitudes where the defects live (flag interactions), and every combination of the stated alphabets is executed."
 )
 NOTE = (
@@ -46,7 +52,8 @@ NOTE = (
     "slice are only required to tie the slices (quantifier). 'Amplitude' is read literally as the modulus of the object handed to the forward "
     "model, so potential objects (exp(iV), modulus one) are exempt from the idempotence clause; value changes there are counted, not failed. apply_fov_mask (and, through the obj property, fix_potential_baseline on a "
     "potential object) with no mask set is a usage error that raises and is not a lattice point. The history part trusts the defaults a fresh model reports at start-up (before any event) as the meaning of 'default' and bounds "
-    "histories at two (thorough: three) events of a 42-event alphabet. Two known findings are reported by class, "
+    "histories at two (thorough: three) events of a 42-event alphabet. The pipeline part uses the shared builder checks/_ptycho.py and a reference model in which reset=True "
+    "restores the OBJECT defaults before the request of the same call is applied (what reset_recon documents) and leaves probe keys not named in that call unjudged. Two known findings are reported by class, "
     "not hidden: pure_phase with a field-of-view mask below one, and repeated application of a fractional mask."
 )
 RULE = (
@@ -60,6 +67,8 @@ PHASES = [float(p) for p in np.linspace(-np.pi, np.pi, 9)]  # includes -pi, -pi/
 FLAGS = ["positivity", "fix_potential_baseline", "identical_slices", "apply_fov_mask"]
 OBJ_TYPES = ["complex", "pure_phase", "potential"]
 MASKS = [("unset",), ("ones",), ("binary", "frame"), ("binary", "seeded"), ("fractional", "ramp"), ("fractional", "seeded")]
+# mask SHAPE dimension (multislice objects only; with one slice a 3-D mask is the 2-D mask): one plane per slice, planes equal or differing
+MASKS_3D = [("binary3d", "equal"), ("binary3d", "differing"), ("fractional3d", "equal"), ("fractional3d", "differing")]
 
 # Tolerances (float32 code). Worst observed on the unchanged tree over seeds {0,1,2,7,12345}, both tiers, outside the two known findings:
 #   |obj| above one (complex) / away from one (pure phase): 1.2e-7          -> TOL_AMP  = 5e-6  (>= 20x; smallest mutant effect 1e-3)
@@ -119,10 +128,18 @@ def make_raw(desc, S, hw, seed):
     return (mag * np.exp(1j * ph)).reshape(S, h, w)
 
 
-def make_mask(desc, hw, seed):
+def make_mask(desc, hw, seed, S=1):
     h, w = hw
     if desc[0] == "unset":
         return None
+    if desc[0] in ("binary3d", "fractional3d"):  # (S,h,w): the mask setter accepts one plane per slice
+        base = make_mask((desc[0][:-2], "seeded"), hw, seed)
+        if desc[1] == "equal":
+            return np.stack([base] * S)
+        planes = [np.roll(base, (s, 2 * s), axis=(0, 1)) for s in range(S)]
+        if desc[0] == "fractional3d":
+            planes = [np.clip(pl * (1.0 - 0.2 * s), 0.0, 1.0) for s, pl in enumerate(planes)]
+        return np.stack(planes)
     if desc[0] == "ones":
         return np.ones(hw)
     if desc[0] == "binary":
@@ -178,18 +195,26 @@ def apply_object(ot, raw, flags, mask, path, seed, model=None):
                 m2 = om.mask if mask is not None else None
                 first = om.apply_hard_constraints(om.params.detach().clone(), mask=m2).detach().clone()
             second = om.apply_hard_constraints(first.clone(), mask=m2).detach().clone()
+            patches = None
+            if path == "property" and flags.get("identical_slices") and first.shape[0] > 1:
+                # the patches handed to the forward model (3 wrap-around 3x3 patches), through the public forward()
+                h, w = int(first.shape[-2]), int(first.shape[-1])
+                rr = (np.array([0, h - 1, 1])[:, None] + np.arange(3)[None]) % h
+                cc = (np.array([0, w - 1, 2])[:, None] + np.arange(3)[None]) % w
+                idx = torch.tensor(rr[:, :, None] * w + cc[:, None, :], dtype=torch.int32)
+                patches = om.forward(idx).detach().numpy()
     except (RuntimeError, ValueError, IndexError) as e:
         if model is not None:
             model[:] = []
         return ("raised", type(e).__name__, str(e)[:120])
     if model is not None and not (np.array_equal(om.params.detach().numpy(), init) and np.array_equal(om.initial_obj.numpy(), init)):
         model[:] = []  # never observed; keeps evaluations independent if it ever happens
-    return ("ok", first.numpy(), second.numpy())
+    return ("ok", first.numpy(), second.numpy(), patches)
 
 
 def judge_object(t, ot, S, hw, rdesc, flags, mdesc, path, seed, model=None):
     raw = make_raw(rdesc, S, hw, seed)
-    mask = make_mask(mdesc, hw, seed)
+    mask = make_mask(mdesc, hw, seed, S)
     afm = bool(flags["apply_fov_mask"])
     case = {"kind": "object", "obj_type": ot, "S": S, "hw": list(hw), "raw": list(rdesc), "flags": dict(flags), "mask": list(mdesc), "path": path}
     usage_error = path == "property" and mask is None and (afm or (ot == "potential" and flags["fix_potential_baseline"]))
@@ -201,7 +226,7 @@ def judge_object(t, ot, S, hw, rdesc, flags, mdesc, path, seed, model=None):
         t.case(key=case, nontrivial=True, outcome=["raised", res[1]])
         t.fail({"relation": "constraint_raises", "obj_type": ot, "path": path, "mask_set": mask is not None, "exception": res[1]}, case, f"{ot} S={S} flags={flags} mask={mdesc} path={path}: {res[1]}: {res[2]}")
         return
-    _, o, o2 = res
+    _, o, o2, patches = res
     masked = afm and mask is not None
     below_one = bool(masked and (mask < 1).any())
     fractional = bool(masked and ((mask > 0) & (mask < 1)).any())
@@ -224,8 +249,14 @@ def judge_object(t, ot, S, hw, rdesc, flags, mdesc, path, seed, model=None):
     if tie:
         d = float(np.abs(o - o[:1]).max())
         t.stat("tie_slice_difference", d)
+        m3 = bool(mask is not None and mask.ndim == 3)
         if d != 0.0:
-            t.fail({"relation": "identical_slices_tied", "obj_type": ot}, case, f"{where}: slices differ by {d:.3g} although identical_slices is set")
+            t.fail({"relation": "identical_slices_tied", "obj_type": ot, "observed": "object", "mask_3d": m3}, case, f"{where}: slices differ by {d:.3g} although identical_slices is set")
+        if patches is not None:
+            dp = float(np.abs(patches - patches[:1]).max())
+            t.stat("tie_patch_difference", dp)
+            if dp != 0.0:
+                t.fail({"relation": "identical_slices_tied", "obj_type": ot, "observed": "patches", "mask_3d": m3}, case, f"{where}: the patches handed to the forward model differ across slices by {dp:.3g} although identical_slices is set")
         return  # slice tying is only claimed to tie slices (quantifier)
     if ot == "complex":
         e = float(amp.max()) - 1.0
@@ -238,7 +269,8 @@ def judge_object(t, ot, S, hw, rdesc, flags, mdesc, path, seed, model=None):
             t.stat("pure_phase_amp_dev", e)
         if e > TOL_AMP:
             k = np.unravel_index(int(np.argmax(np.abs(amp - 1.0))), amp.shape)
-            extra = f" (mask there = {float(mask[k[1], k[2]]):.4g}, mask^2 = {float(mask[k[1], k[2]]) ** 2:.4g})" if masked else ""
+            mk = float(np.broadcast_to(mask, amp.shape)[k]) if masked else 1.0
+            extra = f" (mask there = {mk:.4g}, mask^2 = {mk ** 2:.4g})" if masked else ""
             t.fail({"relation": "pure_phase_unit_amplitude", "obj_type": ot, "apply_fov_mask": masked, "mask_below_one": below_one}, case, f"{where}: |obj| = {float(amp[k]):.6g} at {tuple(int(i) for i in k)} instead of 1{extra}")
     else:
         if flags["positivity"]:
@@ -265,7 +297,7 @@ def judge_object(t, ot, S, hw, rdesc, flags, mdesc, path, seed, model=None):
         t.stat("idempotence_rel_dev", e)
     if e > TOL_IDEM:
         k = np.unravel_index(int(np.argmax(np.abs(amp2 - amp))), amp.shape)
-        extra = f" (mask there = {float(mask[k[1], k[2]]):.4g})" if masked else ""
+        extra = f" (mask there = {float(np.broadcast_to(mask, amp.shape)[k]):.4g})" if masked else ""
         t.fail(cls, case, f"{where}: second application changes the amplitude at {tuple(int(i) for i in k)} from {float(amp[k]):.6g} to {float(amp2[k]):.6g}{extra}")
 
 
@@ -276,7 +308,7 @@ def flag_sets():
 def w_object(item, seed=0):
     ot, S, hw, rdesc = item
     t = Tally()
-    for mdesc in MASKS:
+    for mdesc in MASKS + (MASKS_3D if S > 1 else []):
         model = []  # one model per (raw tensor, mask); see apply_object
         for flags in flag_sets():
             judge_object(t, ot, S, tuple(hw), tuple(rdesc), flags, mdesc, "property", seed, model)
@@ -730,6 +762,156 @@ def w_history(item, seed=0, events=None, depth=2):
     return t
 
 
+# ----------------------------------------------------------------------------- E. pipeline: constraints handed to the real Ptychography object
+# Every way of handing constraints to the reconstruction pipeline, as histories of steps on a real multislice, mixed-state Ptychography
+# instance (built with the shared builder checks/_ptycho.py): the `constraints` property, the model-level setters, and
+# reconstruct(num_iters 0/1, reset False/True, constraints given / not given). After every step a plain-dict reference model says which
+# constraints are in force (a request holds from the step that makes it; reset=True puts the OBJECT constraints back to their defaults
+# before the request of the same call is applied; probe keys not named in a reset call are left unjudged), and the object / patches / probe
+# the forward model receives must satisfy them.
+PIPE_PAYLOADS = {
+    "tie": {"object": {"identical_slices": True}},
+    "noortho": {"probe": {"orthogonalize_probe": False}},
+    "both": {"object": {"identical_slices": True, "positivity": False}, "probe": {"orthogonalize_probe": True}},
+}
+
+
+def pipeline_steps():
+    st = [["prop", p] for p in PIPE_PAYLOADS] + [["model", p] for p in PIPE_PAYLOADS]
+    st += [["recon", n, r, p] for n in (0, 1) for r in (False, True) for p in [None, *PIPE_PAYLOADS]]
+    return st
+
+
+def _pipe_build(ot, seed):
+    from checks import _ptycho
+
+    cfg = {"obj_type": ot, "slices": 2, "modes": 2, "roi": [8, 8], "scan": [2, 2], "pad": [4, 4]}
+    P = _ptycho.build(cfg, np.random.default_rng([seed, 10, 9]))
+    if P.degenerate or P.ptycho is None:
+        raise Broken("pipeline builder returned a degenerate problem")
+    return P.ptycho
+
+
+def pipe_apply(pt, step):
+    k = step[0]
+    if k == "prop":
+        pt.constraints = {a: dict(b) for a, b in PIPE_PAYLOADS[step[1]].items()}
+    elif k == "model":
+        pay = PIPE_PAYLOADS[step[1]]
+        if "object" in pay:
+            pt.obj_model.constraints = dict(pay["object"])
+        if "probe" in pay:
+            pt.probe_model.constraints = dict(pay["probe"])
+    else:
+        _, n, reset, p = step
+        kw = {"num_iters": n, "reset": reset, "optimizer_params": {"object": {"type": "sgd", "lr": 0.05}, "probe": {"type": "sgd", "lr": 0.005}}}
+        if p is not None:
+            kw["constraints"] = {a: dict(b) for a, b in PIPE_PAYLOADS[p].items()}
+        pt.reconstruct(**kw)
+
+
+def pipe_expect(state, step, defaults):
+    """Reference model. state = {"object": {...}, "probe": {...}}; a probe value of "?" means not judged."""
+    k = step[0]
+    pay = PIPE_PAYLOADS.get(step[-1] if k != "recon" else step[3]) if (step[-1] if k != "recon" else step[3]) is not None else {}
+    if k == "recon" and step[2]:
+        state["object"] = dict(defaults["object"])
+        state["probe"] = {kk: "?" for kk in state["probe"]}
+    for part in ("object", "probe"):
+        state[part].update(pay.get(part, {}))
+    return state
+
+
+def pipe_observe(pt):
+    torch = _torch()
+    with torch.no_grad():
+        obj = pt.obj_model.obj.detach().numpy()
+        patches = pt.obj_model.forward(pt.dset.patch_indices[:2]).detach().numpy()
+        probe = pt.probe_model.probe.detach().numpy().astype(np.complex128)
+    c = pt.constraints
+    return obj, patches, probe, _plain(c["object"]), _plain(c["probe"])
+
+
+def run_pipeline_history(t, ot, steps, seed):
+    torch = _torch()
+    case = {"kind": "pipeline", "obj_type": ot, "steps": [list(x) for x in steps]}
+    where = f"{ot} multislice pipeline, steps " + " ; ".join("/".join(str(v) for v in x) for x in steps)
+    restore_defaults()
+    try:
+        pt = _pipe_build(ot, seed)
+        obj0, _p, _q, dobj, dprobe = pipe_observe(pt)
+        defaults = {"object": dict(dobj), "probe": dict(dprobe)}
+        state = {"object": dict(dobj), "probe": dict(dprobe)}
+        nbad = 0
+        for i, step in enumerate(steps):
+            pipe_apply(pt, step)
+            state = pipe_expect(state, step, defaults)
+            obj, patches, probe, cobj, cprobe = pipe_observe(pt)
+            last = step[0] + ("_reset" if step[0] == "recon" and step[2] else "")
+            at = f"{where}: after step {i + 1}"
+            wrong = {k: (cobj.get(k), v) for k, v in state["object"].items() if cobj.get(k) != v}
+            if wrong:
+                nbad += 1
+                t.fail({"relation": "pipeline_constraints_in_force", "model": "object", "last_step": last}, case, f"{at} the object constraints in force are {({k: a for k, (a, b) in wrong.items()})}, requested {({k: b for k, (a, b) in wrong.items()})}")
+            wrong = {k: (cprobe.get(k), v) for k, v in state["probe"].items() if v != "?" and cprobe.get(k) != v}
+            if wrong:
+                nbad += 1
+                t.fail({"relation": "pipeline_constraints_in_force", "model": "probe", "last_step": last}, case, f"{at} the probe constraints in force are {({k: a for k, (a, b) in wrong.items()})}, requested {({k: b for k, (a, b) in wrong.items()})}")
+            if not (np.isfinite(obj).all() and np.isfinite(probe).all()):
+                t.fail({"relation": "pipeline_models_finite"}, case, f"{at} object or probe contain non-finite values")
+                break
+            if state["object"].get("identical_slices"):
+                d = max(float(np.abs(obj - obj[:1]).max()), float(np.abs(patches - patches[:1]).max()))
+                if d != 0.0:
+                    nbad += 1
+                    t.fail({"relation": "pipeline_object_admissible", "clause": "identical_slices", "last_step": last}, case, f"{at} identical_slices was requested but the object / patches handed to the forward model differ across slices by {d:.3g}")
+            elif ot == "complex" and float(np.abs(obj).max()) > 1 + TOL_AMP:
+                nbad += 1
+                t.fail({"relation": "pipeline_object_admissible", "clause": "amplitude_at_most_one", "last_step": last}, case, f"{at} max |obj| = {np.abs(obj).max():.6g} > 1")
+            elif ot == "potential" and state["object"].get("positivity") and float(obj.min()) < 0:
+                nbad += 1
+                t.fail({"relation": "pipeline_object_admissible", "clause": "positivity", "last_step": last}, case, f"{at} min value {obj.min():.6g} < 0 under positivity")
+            if state["probe"].get("orthogonalize_probe") is True:
+                Q = probe.reshape(probe.shape[0], -1)
+                G = Q @ Q.conj().T
+                ints = np.real(np.diag(G))
+                off = float(np.abs(G - np.diag(np.diag(G))).max()) / float(ints.max())
+                t.stat("pipeline_gram_offdiag", off)
+                if off > TOL_GRAM or float((ints[1:] - ints[:-1]).max()) > TOL_INT * float(ints.max()):
+                    nbad += 1
+                    t.fail({"relation": "pipeline_probe_admissible", "last_step": last}, case, f"{at} orthogonalize_probe is in force but the probe handed to the forward model has off-diagonal {off:.3g} / intensities {ints.round(4).tolist()}")
+    except Broken:
+        raise
+    except Exception as e:
+        t.case(key=case, nontrivial=True, outcome=["raised", type(e).__name__])
+        t.fail({"relation": "library_raises", "stage": "pipeline", "exception": type(e).__name__}, case, f"{where}: {type(e).__name__}: {str(e)[:200]}")
+        restore_defaults()
+        return
+    restore_defaults()
+    t.case(key=case, nontrivial=len(steps) > 0, outcome=[ot, len(steps), nbad, bool(state["object"].get("identical_slices"))])
+
+
+def w_pipeline(item, seed=0, depth=2):
+    """item = (obj_type, index of the first step or -1): every history of up to `depth` steps that starts with it."""
+    ot, i = item
+    t = Tally()
+    steps = pipeline_steps()
+    if i < 0:
+        run_pipeline_history(t, ot, [], seed)
+        return t
+    first = steps[i]
+    run_pipeline_history(t, ot, [first], seed)
+    if depth >= 2:
+        for s2 in steps:
+            run_pipeline_history(t, ot, [first, s2], seed)
+    if depth >= 3:
+        for s2 in steps[2::6]:  # middle step: one property, one model-level and two reconstruct steps
+            for s3 in steps:
+                run_pipeline_history(t, ot, [first, s2, s3], seed)
+    t.sample({"kind": "pipeline", "obj_type": ot, "first_step": first, "depth": depth}, cap=2)
+    return t
+
+
 # ----------------------------------------------------------------------------- driver
 def run(ctx):
     warnings.simplefilter("ignore")
@@ -747,6 +929,11 @@ def run(ctx):
         "histories: 'default' means the constraints a fresh model reported at start-up, before any event; histories are bounded at two (thorough: three) configure-events out of 42 "
         "(3 object types x 5 keys, 3 probe keys, 3 tomography keys; each through the setter and through add_constraint); class-level default mappings are restored from a start-up deep copy "
         "around every history so that a leak found in one history cannot poison the next",
+        "masks may be 3-D (one plane per slice; the mask setter accepts it): multislice objects are also run with 3-D masks whose planes are equal and whose planes differ, binary and fractional; the tie oracle "
+        "reads both the object and the patches returned by the public forward()",
+        "pipeline part: a request holds from the step that makes it (property, model setter or reconstruct argument) until a later request changes it; reconstruct(reset=True) puts the object constraints "
+        "back to the defaults read after building, then applies the request of the same call; probe constraints not named in a reset call are not judged (the library keeps them, nothing states it); "
+        "the problem is a 2-slice, 2-mode, 8x8-ROI, 2x2-scan instance from checks/_ptycho.py whose initial object has differing slices, so slice tying is never vacuous",
         "float32 code: amplitude tolerance 5e-6, idempotence 1e-5 of the value scale, Gram tolerance 1e-4 of the largest mode intensity (float32 Gram-Schmidt at correlation 0.99 reaches 2e-6), intensity tolerances 1e-5",
     )
 
@@ -767,6 +954,7 @@ def run(ctx):
         "object_types": OBJ_TYPES,
         "constraint_flags_all_combinations_of": FLAGS,
         "masks": [list(m) for m in MASKS],
+        "masks_3d_one_plane_per_slice_for_S_above_1": [list(m) for m in MASKS_3D],
         "slices": slices,
         "hw": [list(s) for s in shapes],
         "paths": ["obj property", "apply_hard_constraints(mask=None) for the unset mask"],
@@ -800,6 +988,19 @@ def run(ctx):
         ev3 = history_events(["setter"])
         ctx.pmap(w_history, list(range(len(ev3))), chunk=1, label="histories (all ordered triples, setter route)", seed=ctx.seed, events=ev3, depth=3)
     ctx.coverage["histories"] = ctx.tally.n - before
+    psteps = pipeline_steps()
+    ptypes = [("potential", 2), ("complex", 2), ("pure_phase", 2)] if q else [("potential", 3), ("complex", 3), ("pure_phase", 3)]
+    ctx.coverage["alphabet"]["pipeline"] = {
+        "steps": psteps,
+        "payloads": PIPE_PAYLOADS,
+        "object_types_and_history_depth": [list(x) for x in ptypes],
+        "middle_steps_of_triples": psteps[2::6],
+        "problem": "2 slices, 2 probe modes, roi 8x8, 2x2 scan, checks/_ptycho.py builder",
+    }
+    before = ctx.tally.n
+    for ot, depth in ptypes:
+        ctx.pmap(w_pipeline, [(ot, i) for i in range(-1, len(psteps))], chunk=1, label=f"pipeline histories ({ot}, depth {depth})", seed=ctx.seed, depth=depth)
+    ctx.coverage["pipeline_histories"] = ctx.tally.n - before
     if len(ctx.tally.outcomes) < 50:
         raise Broken("too few distinct outcomes: the lattice did not vary")
     if len(ctx.tally.nontrivial) < 1000:
@@ -814,6 +1015,8 @@ def replay(ctx, case):
     seed = ctx.seed
     if k == "history":
         run_history(t, [list(e) for e in case["events"]])
+    elif k == "pipeline":
+        run_pipeline_history(t, case["obj_type"], [list(x) for x in case["steps"]], seed)
     elif k == "object":
         judge_object(t, case["obj_type"], case["S"], tuple(case["hw"]), tuple(case["raw"]), {f: bool(v) for f, v in case["flags"].items()}, tuple(case["mask"]), case["path"], seed)
     elif k == "voxel":
